@@ -60,6 +60,17 @@ def history(ctx, nops):
                     for v in rng.sample([1, 1.0, True, 0, 0.0, False, 7, 7.0], 3):
                         e2 = dict(env); e2[sp] = v
                         ops.append(["call", ident, common.enc_env(e2)])
+    # an experiment may be NAMED like anything the evaluator has: build it, replace it, come back (a recompile cycle)
+    plain = progs[0]
+    for nm in ("recompile", "run_experiment", "_checksum", "__call__", "__class__", "__dict__"):
+        named = 'def %s { salt: "n" splitters: u return "p" weighted 1, "q" weighted 1, "r" weighted 2 }' % nm
+        other = 'def other_%s { salt: "o" splitters: u return "x" weighted 3, "y" weighted 1 }' % nm.strip("_")
+        ops.append(["new", 2, named])
+        for text in (other, named, other):
+            ops.append(["call", 2, common.enc_env({"u": "unit%d" % rng.randrange(50)})])
+            ops.append(["recompile", 2, text])
+            for k in range(3):
+                ops.append(["call", 2, common.enc_env({"u": "unit%d" % rng.randrange(50)})])
     # the wide program on every branch in turn (same evaluator, same call path, different weight data each time)
     for wide in progs[-2:]:
         ops.append(["new", 3, wide[1]])
